@@ -227,6 +227,27 @@ def check(run):
                                   kind, kw, value, tr[k] if k < len(tr) else "<missing>", ref_trace[k] if k < len(ref_trace) else "<missing>"),
                               {"kind": "scenario", "variant": variant, "scenario": scenario})
 
+    MODERATE = ("zero", "negative", "one", "small-positive", "fraction", "absent")
+
+    def check_finite(kind, kw, v, variant, res, scenario, classes):
+        """an ACCEPTED configuration whose values under test are all of moderate size must not hand NaN or inf to the engine"""
+        def moderate(t):
+            try:
+                x = float(t)
+            except ValueError:
+                return t == "-"
+            return x == x and (x == 0 or 1e-6 <= abs(x) <= 1e6)
+        if res["cls"] != "ok" or any(c not in MODERATE for c in classes) or not all(moderate(t) for t in (v.split() or [v])):
+            return
+        lc = last_config(res)
+        if not (lc and lc[0] == "ok"):
+            return
+        m = re.search(r"^(ENERGY|BIAS \S+|CV \S+|ATOMF \d+(?: \S+)*?) -?(nan|inf)", res["out"], re.M)
+        if m:
+            run.violation("nonfinite:%s.%s:%s" % (kind, kw, "-".join(classes) or "empty"),
+                          "accepted configuration (%s %s = %s, %s build) hands a non-finite value to the engine: %s" % (kind, kw, v, variant, m.group(0)),
+                          {"kind": "scenario", "variant": variant, "scenario": scenario})
+
     # ------------------------------------------------------------------ 1. guard-table sweep (tie)
     values = list(L.BOUNDARY_VALUES) + ([] if quick else list(L.EXTRA_VALUES))
     # witnesses of the theorems (always run)
@@ -295,6 +316,7 @@ def check(run):
         nontrivial = (impl != "accept") or (v not in ("1", "2"))
         run.count((eid, value_class(v), var), nontrivial)
         run.dist("table:%s:%s" % (var, impl if impl in ("accept", "reject") else "died"))
+        check_finite(kind, kw, v, var, rr, scen[(eid, v)], [value_class(v)])
         if cls != "ok":
             n_dead += 1
             report_death(kind, kw, v, var, rr, scen[(eid, v)], " (model: %s)" % mo)
@@ -575,19 +597,19 @@ def check(run):
     m6k = [MS.norm_model(l) for l in m6k]
     j6 = []
     for k, c in enumerate(sess6):
-        sc = MS.scenario(c)
+        sc = MS.scenario(c, via_file=(k % 3 == 1))
         j6.append(((k, "s"), plain, sc, os.path.join(W, "m6s", str(k)), "plain", 30))
         if asan and (not quick or k % 4 == run.seed % 4):
             j6.append(((k, "a"), asan, sc, os.path.join(W, "m6a", str(k)), "asan", 60))
         same_model = kept6[k] is not None and k < len(m6) and k < len(m6k) and m6[k] and m6k[k] and \
             m6[k][-1].split(" ", 1)[1] == m6k[k][-1].split(" ", 1)[1]
         if same_model:
-            j6.append(((k, "f"), plain, MS.scenario(kept6[k]), os.path.join(W, "m6f", str(k)), "plain", 30))
+            j6.append(((k, "f"), plain, MS.scenario(kept6[k], via_file=(k % 3 == 1)), os.path.join(W, "m6f", str(k)), "plain", 30))
     r6 = L.run_many(j6)
     for k, c in enumerate(sess6):
-        notes = [x if x == "RESET" else x.note.strip().replace(" ", "+") for x in c]
+        notes = [x.split(":")[0] if isinstance(x, str) else x.note.strip().replace(" ", "+") for x in c]
         shape = ">".join(n for n in notes if n)
-        sc = MS.scenario(c)
+        sc = MS.scenario(c, via_file=(k % 3 == 1))
         for tag in ("s", "a"):
             r2 = r6.get((k, tag))
             if r2 is not None and r2["cls"] != "ok" and not r2.get("skipped"):
@@ -687,13 +709,14 @@ def check(run):
 
     # ------------------------------------------------------------------ 3c'. vector-valued keywords (tie of vector_keyword)
     vjobs, vlines, vcases = [], [], []
-    for label, tmpl, presized, elem in T.VECTORS:
-        for v in T.VECTOR_VALUES + (["-1 1", "1 -1"] if elem == "nonneg" or label.startswith("harmonic") else []):
+    for label, tmpl, presized, elem in T.VECTORS + T.VECTORS3:
+        nvar = 3 if label.endswith("/3") else 2
+        for v in (T.VECTOR3_VALUES if nvar == 3 else T.VECTOR_VALUES + (["-1 1", "1 -1"] if elem in ("nonneg", "pos") or label.startswith("harmonic") else [])):
             if label.startswith("histgrid") and ("1e300" in v or "1e-300" in v):
                 continue          # extreme widths change the SIZE of the grid (grid_init covers that), not the list check
             k = len(vcases)
             vcases.append((label, v))
-            vlines.append("vector n=2 presized=%s elem=%s toks=%s" % ("on" if presized else "off", elem, ",".join(v.split())))
+            vlines.append("vector n=%d presized=%s elem=%s toks=%s" % (nvar, "on" if presized else "off", elem, ",".join(v.split())))
             sc = T.scenario(tmpl.replace("{V}", v), 3, nsteps=4)
             for var in variants:
                 if var == "asan" and quick and k % 4 != run.seed % 4:
@@ -716,9 +739,53 @@ def check(run):
             continue
         if impl == "reject":
             check_survivors("vector", label, v, var, rr, sc)
+        check_finite("vector", label, v, var, rr, sc, [value_class(t) for t in v.split()])
         if impl != mo.split()[0]:
             run.mismatch("vector:" + label, "%s = %s (%s)" % (label, v, var), impl, mo)
     run.sample({"vector_case": "%s = %s" % vcases[1], "model": vout[1] if len(vout) > 1 else None})
+
+    # ------------------------------------------------------------------ 3e. absolute step numbers beyond int / double precision
+    # Valid configurations whose schedules use frequencies that are not powers of two (3, 5, 6, 7, 12), started at absolute
+    # step S in {2^31-2, 2^32-3, 2^53-2, 2^62-5} (the run crosses the boundary).  Oracles: no death, no error; and every
+    # value reported (variables, energies, biases, atom forces) equals the run started at S mod 420 + 420, which has the
+    # same residues modulo every frequency: a step number truncated to int (or rounded to double) shifts a schedule.
+    big_confs = T.BIGSTEP
+    big_S = [2**31 - 2, 2**32 - 3, 2**53 - 2, 2**62 - 5]
+    bjobs = []
+    for k, (label, conf) in enumerate(big_confs):
+        for si, S_ in enumerate(big_S):
+            if quick and (k + si + run.seed) % 2:
+                continue
+            for tag, st in (("big", S_), ("small", S_ % 420 + 420)):
+                sc = T.scenario(conf, 3, nsteps=8).replace("\nstep\n", "\nsetstep %d\nstep\n" % st, 1)
+                bjobs.append(((k, si, tag), plain, sc, os.path.join(W, "bs", "%d-%d-%s" % (k, si, tag)), "plain", 30))
+    bres = L.run_many(bjobs)
+    def strip_steps(out):
+        return [l for l in out.split("\n") if l.split(" ")[0] in ("ENERGY", "CV", "BIAS", "ATOMF", "CONFIG")] + \
+               [re.sub(r"^STEP \d+", "STEP", l) for l in out.split("\n") if l.startswith("STEP ")]
+    for (k, si, tag), rr in sorted(bres.items()):
+        if tag != "big":
+            continue
+        label = big_confs[k][0]
+        sc = [j for j in bjobs if j[0] == (k, si, tag)][0][2]
+        run.count(("bigstep", label, si), True)
+        run.dist("bigstep:%s" % label)
+        if rr["cls"] != "ok":
+            report_death("bigstep", label, str(big_S[si]), "plain", rr, sc, vclass="step-2^%d" % (31, 32, 53, 62)[si])
+            continue
+        if re.findall(r"^CONFIG err=(\S+)", rr["out"], re.M)[-1:] != ["ok"] or re.search(r"^STEP \d+ err=(?!ok)", rr["out"], re.M):
+            run.violation("bigstep:error:%s" % label, "valid configuration (%s) started at absolute step %d is rejected or reports an error at a step" % (label, big_S[si]),
+                          {"kind": "scenario", "scenario": sc})
+            continue
+        rs = bres.get((k, si, "small"))
+        if rs and rs["cls"] == "ok":
+            a_, b_ = strip_steps(rr["out"]), strip_steps(rs["out"])
+            if a_ != b_:
+                kx = next((i for i, (x_, y_) in enumerate(zip(a_, b_)) if x_ != y_), min(len(a_), len(b_)))
+                run.violation("bigstep:schedule:%s" % label, "configuration %s started at absolute step %d does not behave like the same run started at step %d "
+                              "(same residues modulo 3, 5, 6, 7, 12): %s instead of %s" % (label, big_S[si], big_S[si] % 420 + 420,
+                                                                                          a_[kx] if kx < len(a_) else "<missing>", b_[kx] if kx < len(b_) else "<missing>"),
+                              {"kind": "scenario", "scenario": sc})
 
     # ------------------------------------------------------------------ 3d. run-time paths: script commands after two steps
     rt_conf = (T.cv("x", 1, T.GRIDCV) + "harmonic {\n  name r\n  colvars x\n  centers 1.0\n  forceConstant 2.0\n}\n"
@@ -795,7 +862,7 @@ def check(run):
     # ------------------------------------------------------------------ 4. search: harvested keywords
     budget = 35 if quick else 600
     search(run, r, plain, asan if not quick else None, W, quick, report_death, check_survivors_search=None,
-           deadline=t_start + (70 if quick else 780))
+           deadline=t_start + (70 if quick else 780), check_finite=check_finite)
     run.notes.append("deaths in the table sweep: %d" % n_dead)
 
 
@@ -822,6 +889,17 @@ def gen_grid_cases(r, n):
         ("65536^4-wraps-to-0", [("0", "65536", "1")] * 4, False),
         ("46341^2-just-above-int", [("0", "46341", "1"), ("0", "46341", "1")], False),
         ("1024^2", [("0", "1024", "1"), ("0", "1024", "1")], False),
+        # the same shapes at other scales of the data, and upper boundaries a fraction of a bin beyond the last full one
+        ("scale-1e-8", [("0", "4e-8", "5e-9")], False),
+        ("scale-1e8", [("0", "4e8", "5e7")], False),
+        ("scale-1e-8-offset", [("-1e-8", "1e-8", "25e-10")], False),
+        ("scale-mixed-2d", [("0", "4e8", "1e8"), ("0", "3e-8", "1e-8")], False),
+        ("scale-1e-8-width-1", [("0", "4e-8", "1")], False),
+        ("scale-1e8-width-1e-8", [("0", "1e8", "1e-8")], False),
+        ("upper-0.4-bin-beyond", [("0", "4.2", "0.5")], False),
+        ("upper-0.6-bin-beyond", [("0", "4.3", "0.5")], False),
+        ("upper-0.6-bin-beyond-far", [("0", "400.3", "0.5")], False),
+        ("upper-0.4-bin-short", [("0", "3.8", "0.5")], False),
     ]
     out = [{"label": l, "dims": d, "ambiguous": a} for l, d, a in fixed]
     sizes = [1, 2, 3, 16, 1000, 65536, 46341, 2147483647, 2147483648, 4294967296]
@@ -963,6 +1041,7 @@ def gen_session(r, k):
 # ------------------------------------------------------------------------------------------------
 
 _harvest_cache = {}
+_nonfinite_base = set()
 
 
 def harvested(plain, W):
@@ -976,7 +1055,7 @@ def harvested(plain, W):
         name = os.path.basename(os.path.dirname(c))
         d = os.path.join(W, "h", name)
         prep_inputs(d)
-        jobs.append((name, plain, big_scenario(open(c).read(), "log.txt", 1), d, "plain", 60))
+        jobs.append((name, plain, big_scenario(open(c).read(), "log.txt", 5), d, "plain", 60))
     res = L.run_many(jobs)
     for c in cfgs:
         name = os.path.basename(os.path.dirname(c))
@@ -989,6 +1068,8 @@ def harvested(plain, W):
             log = open(os.path.join(W, "h", name, "log.txt")).read().split("Reading new configuration")[-1]
         except OSError:
             continue
+        if re.search(r"^(ENERGY|BIAS \S+|CV \S+) -?(nan|inf)", rr["out"], re.M):
+            _nonfinite_base.add(name)      # already non-finite as it stands (in this engine set-up): not a consequence of the value under test
         out.append((name, text, L.harvest(log)))
     _harvest_cache["h"] = out
     return out
@@ -1013,7 +1094,7 @@ def big_scenario(conf, log=None, nsteps=5):
     return "\n".join(S) + "\n"
 
 
-def search(run, r, plain, asan, W, quick, report_death, check_survivors_search, deadline):
+def search(run, r, plain, asan, W, quick, report_death, check_survivors_search, deadline, check_finite=lambda *a: None):
     hv = harvested(plain, W)
     run.dist("search:configurations-harvested", len(hv))
     universe = []
@@ -1095,6 +1176,8 @@ def search(run, r, plain, asan, W, quick, report_death, check_survivors_search, 
             if rr["cls"] != "ok":
                 report_death(label, kw, v, variant, rr, sc, " (configuration %s)" % name)
                 continue
+            if name not in _nonfinite_base:
+                check_finite(label, kw.lower(), v, variant, rr, sc, [value_class(t) for t in v.split()] if v.strip() else [])
             if impl == "reject" and variant == "plain":
                 ol = objs_lines(rr["out"])
                 if len(ol) >= 2 and not (ol[1][0].startswith(ol[0][0]) and ol[1][1].startswith(ol[0][1])):
